@@ -198,3 +198,54 @@ func VH_C18_proxy_response_roundtrip() {
 	verifAssert(err != nil, "C18: proxy failure decodes to an error")
 	verifAssert(w.off == len(w.b), "C18: proxy failure decode consumes exactly the encoding")
 }
+
+// Target info (principal proxy): the URL a delegate names is the URL the
+// principal connects to - user, host and port survive the textual form.
+//
+//verif:prop C18
+//verif:bounds target URL as Intent.TargetURL builds it: host (SNI label) "host.example" or an IPv6 literal, port 0 / 22 / 65535 (always present), user name "" / one symbolic byte / "u" + one symbolic byte (every byte value: '@', '/', '%', space, non-ASCII ...); real net/url formatting and parsing
+//verif:cover roundtrip
+//verif:timeout 900
+func VH_C18_target_info_roundtrip() {
+	in := Intent{TargetPort: uint16(verifPick("port", 0, 22, 65535))}
+	in.TargetSNI.Label = []byte("host.example")
+	if verifBool("ipv6-host") {
+		in.TargetSNI.Label = []byte("2001:db8::1")
+	}
+	switch verifPick("user-shape", 0, 1, 2) {
+	case 1:
+		in.TargetUsername = verifString("user", 1)
+	case 2:
+		in.TargetUsername = "u" + verifString("user", 1)
+	}
+	u := in.TargetURL()
+	w := &c18TIBuf{}
+	if err := WriteTargetInfo(u, w); err != nil {
+		return
+	}
+	got, err := ReadTargetInfo(w)
+	verifAssert(err == nil, "C18: target info written by WriteTargetInfo is readable by ReadTargetInfo")
+	if err != nil {
+		return
+	}
+	verifCover("roundtrip")
+	verifAssertStrEq(got.User, u.User, "C18: target info round-trip: user")
+	verifAssertStrEq(got.Host, u.Host, "C18: target info round-trip: host")
+	verifAssertStrEq(got.Port, u.Port, "C18: target info round-trip: port")
+	verifAssert(w.off == len(w.b), "C18: ReadTargetInfo consumes exactly what WriteTargetInfo wrote")
+}
+
+type c18TIBuf struct {
+	b   []byte
+	off int
+}
+
+func (v *c18TIBuf) Write(p []byte) (int, error) { v.b = append(v.b, p...); return len(p), nil }
+func (v *c18TIBuf) Read(p []byte) (int, error) {
+	if v.off >= len(v.b) {
+		return 0, io.EOF
+	}
+	n := copy(p, v.b[v.off:])
+	v.off += n
+	return n, nil
+}
